@@ -169,6 +169,25 @@ def r14d(ctx):
         ctx.ok("_expr.is_valid_blockwise_op", mod.loc(fn), f"Blockwise and not {sorted(excl)}")
     else:
         ctx.bad("_expr.is_valid_blockwise_op", mod.loc(fn), f"fusion eligibility is `{txt}`: must require Blockwise and exclude {sorted(need - excl)} (their tasks embed data / foreign keys, not (name, index) keys of a dependency)")
+    # Blockwise classes whose layer is hand-written build tasks that read other partitions of their input than the one they
+    # produce (loc with a slice: partition start + i); a fused group only wires the same-numbered partition of its
+    # dependencies, so each of them must fail the eligibility test - by name, or through a test on the class's _layer
+    param = fn.args.args[0].arg
+    generic_excl = any(pmatch(f"type({param})._layer is V_base._layer", n) is not None or pmatch(f"type({param})._layer is Expr._layer", n) is not None for r in rets for n in ast.walk(r))
+    bw = model.cls("Blockwise")
+    nh = 0
+    for c in model.subclasses(bw):
+        ly = c.provider("_layer")
+        if ly is None or ly.cls is model.core_expr:
+            continue
+        nh += 1
+        cid = f"{c.qual}:hand-written-layer:not-fusable"
+        named = any(k.name in excl for k in c.mro if not isinstance(k, str))
+        if generic_excl or named:
+            ctx.ok(cid, c.loc, "fails the fusion eligibility test")
+        else:
+            ctx.bad(cid, ly.cls.module.loc(ly.node), f"{c.qual} is Blockwise with a hand-written _layer ({ly.cls.qual}._layer) but passes is_valid_blockwise_op: inside a fused group its task still names partitions of its input that the group does not wire (e.g. (frame, start + i)), so the fused plan fails or reads the wrong partition")
+    ctx.floor("Blockwise classes with a hand-written layer", nh, 3)
     # the locals of the pass are identified by what they hold, not by their names
     # the pass may be split over nested functions and helpers: they are found by what they contain
     scope = [f for _, _, f in closure_functions(model, mod, None, outer, depth=2)]
